@@ -41,6 +41,7 @@ package hash
 //@   requires h != nil && h.replicas >= 0
 //@   let hv = ret(h.hashFunc)
 //@   let sx = ret(sort.Search)
+//@   loop 1 entry [starts-at-zero] i == 0
 //@   loop 1 invariant 0 <= i && i <= h.replicas
 //@   loop 1 iteration-ensures [only-own-positions] len(h.keys) == at_head(len(h.keys)) || (len(h.keys) == at_head(len(h.keys)) - 1 && sx < at_head(len(h.keys)) && at_head(h.keys[sx]) == hv)
 //@   loop 1 iteration-ensures [prefix-kept] forall(j, 0, sx, j < len(h.keys) ==> h.keys[j] == at_head(h.keys[j]))
@@ -71,6 +72,7 @@ package hash
 //@   opaque repr, Remove, addNode, Itoa
 //@   requires h != nil && h.replicas >= 0
 //@   let n = ite(old(replicas) > h.replicas, h.replicas, old(replicas))
+//@   loop 1 entry [starts-at-zero] i == 0
 //@   loop 1 invariant 0 <= i && replicas == n
 //@   loop 1 iteration-ensures [one-position] len(h.keys) == at_head(len(h.keys)) + 1 && h.keys[at_head(len(h.keys))] == ret(h.hashFunc) && calls(hashFunc) == 1
 //@   loop 1 iteration-ensures [ring-gets-node] has(h.ring, ret(h.hashFunc))
